@@ -19,6 +19,14 @@ CHECKS = {
                 text="All 76 public methods of the five ppv-null types are compared as value graphs with lane-wise scalar definitions; rotation amounts and lane indices are split over their whole documented domain; any overflow/bounds Assert whose condition depends on operand values, or reachable panic call, is a violation (dev-profile MIR, so debug-only panics are included).",
                 note="Trusted: normalisation laws, core models, rustc's MIR. Release builds have a subset of the dev build's panic sites.",
                 technique="value-graph normalisation of MIR plus constant folding of every Assert condition"),
+    "C09": dict(level=TV, design="3/C09",
+                text="with_tweak + encrypt_block for symbolic key, tweak and block is evaluated to a value graph (all loop bounds are compile-time constants) and must be bit-for-bit identical to the graph of the Skein 1.3 definition written independently in spec/threefish.py (key schedule, 72/72/80 MIX rounds, rotation constants, word permutation, subkey injection, LE words); done for the unrolled build and for the no_unroll feature. Decides the property for all keys, tweaks and blocks.",
+                note="Trusted: spec/threefish.py (validated against NIST vectors in setup), normalisation laws, models of core slice/iterator functions, rustc's MIR.",
+                technique="value-graph normalisation of MIR vs. an independently written reference (translation validation), two build configurations"),
+    "C10": dict(level=TV, design="3/C10",
+                text="decrypt(encrypt(b)) and encrypt(decrypt(b)) with the entire subkey array and the block as free symbols must normalise to b, for 3 sizes, both orders, unrolled and no_unroll builds. The laws x+k-k=x, x^y^y=x, rotr(rotl(x,r),r)=x cancel round by round.",
+                note="Trusted: normalisation laws, core models. Subkeys are free symbols, so the result holds for every key and tweak.",
+                technique="value-graph normalisation: composition of the two MIR bodies reduces to the identity"),
 }
 
 REASONS = {}
